@@ -5,7 +5,7 @@ PATCH="$1"; shift
 cd /repo || exit 3
 if [ -n "$(git status --porcelain --untracked-files=no)" ]; then echo "/repo is dirty"; exit 3; fi
 if ! git apply --3way "$PATCH" 2>/tmp/apply.err; then
-  if ! git apply "$PATCH" 2>>/tmp/apply.err; then echo "PATCH DOES NOT APPLY: $(head -3 /tmp/apply.err)"; git checkout -- . ; git reset -q; exit 4; fi
+  if ! git apply "$PATCH" 2>>/tmp/apply.err; then echo "PATCH DOES NOT APPLY: $(head -3 /tmp/apply.err)"; git reset -q --hard HEAD; exit 4; fi
 fi
 git reset -q
 for ID in "$@"; do
@@ -17,5 +17,5 @@ for ID in "$@"; do
     *) echo "$ID: rc=$rc $(echo "$out" | tail -3 | cut -c1-300)";;
   esac
 done
-cd /repo && git checkout -- . && git clean -fdq -e verif_on.go 2>/dev/null
+cd /repo && git reset -q --hard HEAD
 git status --porcelain | head -3
